@@ -9,6 +9,14 @@ from .. import gen, runner, sx, world, implops
 
 def pair_cfgs(rng, limit):
     c1 = gen.gen_cfg(rng, limit)
+    if rng.random() < 0.08:
+        # options differ in the namespace only, the mode is on for both named namespaces and (mostly)
+        # nothing is registered: the treespecs record their namespace without containing a custom node
+        ns1 = rng.choice([1, 2])
+        ns2 = rng.choice([0, 1, 2, 3]) if rng.random() < 0.3 else 3 - ns1
+        regs = c1[3] if rng.random() < 0.3 else ()
+        ins = rng.choice([(1, 2), (1, 2), (0, 1, 2), (ns1,)])
+        return (c1[0], ns1, 0, regs, ins, limit), (c1[0], ns2, 0, regs, ins, limit)
     # second configuration: same registry and modes; options equal most of the time
     nil2 = c1[0] if rng.random() < 0.85 else 1 - c1[0]
     ns2 = c1[1] if rng.random() < 0.7 else rng.choice([0, 1, 2, 3])
@@ -42,6 +50,8 @@ def run_pairs(res, rng, n, limit, hook=None):
         g = gen.TreeGen(rng, world.STRUCTSEQ_ARITY, max_nodes=rng.choice([6, 15, 30]),
                         max_depth=rng.choice([3, 5, 8]), max_arity=rng.choice([2, 3, 5]))
         o1, o2, label = gen.gen_pair(rng, g, world.STRUCTSEQ_ARITY)
+        if c1[1] != c2[1] and c1[3] == c2[3] and set(c1[4]) >= {1, 2} and rng.random() < 0.6:
+            o2, label = o1, 'same_tree_other_namespace'
         if rng.random() < 0.3:
             o1, o2 = o2, o1
         res.count('pair_' + label)
